@@ -359,12 +359,23 @@ theorem slice_split (bs : Bits) (a b : Nat) (h : bs.length = a + b) : slice bs 0
   rw [List.take_of_length_le (l := bs.drop a) (by simp; omega)]
   exact List.take_append_drop a bs
 
-/-! ## the simp set that evaluates reads of an append chain -/
+theorem isBytes_bitsToBytes' (bs : Bits) (h : bs.length % 8 = 0) : isBytes (bitsToBytes bs) = true :=
+  isBytes_bitsToBytes (bs.length / 8) bs (by omega)
 
-theorem getBit_singleton_zero (x : Bool) : getBit [x] 0 = x := rfl
+theorem bitsToNat_lt_of_le (bs : Bits) (w : Nat) (h : bs.length ≤ w) : bitsToNat bs < 2 ^ w :=
+  Nat.lt_of_lt_of_le (bitsToNat_lt bs) (Nat.pow_le_pow_right (by omega) h)
 
 theorem slice_length (bs : Bits) (off w : Nat) : (slice bs off w).length = min w (bs.length - off) := by
   simp [slice]
+
+theorem getField_lt (bs : Bits) (off w : Nat) : getField bs off w < 2 ^ w :=
+  bitsToNat_lt_of_le _ _ (by simp [slice_length]; omega)
+
+theorem b2n_lt' (b : Bool) : b2n b < 2 ^ 1 := by cases b <;> decide
+
+/-! ## the simp set that evaluates reads of an append chain -/
+
+theorem getBit_singleton_zero (x : Bool) : getBit [x] 0 = x := rfl
 
 open Lean.Parser.Tactic in
 /-- `layout_simp [extra lemmas / hypotheses]`: resolve `slice` / `getField` / `getBit` of a
@@ -377,5 +388,17 @@ macro "layout_simp" "[" ts:simpLemma,* "]" : tactic =>
       bitsToNat_two_bits,
       ↓reduceIte, Nat.reduceAdd, Nat.reduceSub, Nat.reduceMul, Nat.zero_add, Nat.reduceLeDiff,
       Nat.reduceLT, Nat.reducePow, Nat.lt_irrefl, Nat.reduceEqDiff, $ts,*])
+
+/-- closes one conjunct of a well-formedness goal about a field read from an arbitrary bit string
+(extended by `macro_rules` in the PDU lemma files) -/
+syntax "wf_field" : tactic
+macro_rules | `(tactic| wf_field) => `(tactic| first
+  | exact getField_lt _ _ _
+  | exact b2n_lt' _
+  | exact fromSigned_lt _ _
+  | (apply bitsToNat_lt_of_le; simp (config := { decide := true }) [slice_length, *]; done)
+  | (apply bitsToBytes_length; simp (config := { decide := true }) [slice_length, *]; done)
+  | (apply isBytes_bitsToBytes'; simp (config := { decide := true }) [slice_length, *]; done)
+  | (simp (config := { decide := true }) [slice_length, *]; done))
 
 end Dmr
